@@ -9,7 +9,7 @@
   zip(1..=K·cells, rows) + set_betas     squareβ / trisβ / hexβ   (dart d ↦ row (d-1) mod K of cell (d-1)/K)
   build_2d_grid / build_2d_splitgrid     buildGrid2 / buildSplit2 (placement blocks GENERATED)
   build_3d_grid + generate_hex_offset    buildHex3                (index decoding and arms GENERATED)
-  Builder::build (grid branch)           build2 / build3          (ok / err / panic)
+  Builder::build (grid branch)           build2 / build3          (ok / err / panic; zero-count guard GENERATED)
 
   Import-free apart from the model and the generated tables.
 -/
@@ -180,15 +180,22 @@ def parse3 (o : Rat × Rat × Rat) (n : Option (Nat × Nat × Nat)) (lpc lens : 
 
 /-! ## `CMapBuilder::build` on a grid descriptor -/
 
-/-- 2-D.  `build_2d_grid` / `build_2d_splitgrid` evaluate `n_square_x - 1` / `n_square_y - 1` on
-    `usize` whenever one count is zero ("attempt to subtract with overflow" with overflow checks,
-    which the harness enables): every zero count panics.  The final `debug_assert_eq!` on the number
-    of faces is mirrored too. -/
+/-- 2-D.  Zero cell count: the builders create the map with `K·nx·ny = 0` darts and, when the
+    GENERATED flag `squareZeroGuard` / `trisZeroGuard` says the source has the guard
+    `if n_square_x == 0 || n_square_y == 0 { return map; }`, return it at once (no β, no vertex, the
+    final `debug_assert_eq!` is not reached); without the guard they evaluate `n_square_x - 1` /
+    `n_square_y - 1` on `usize` ("attempt to subtract with overflow" with overflow checks, which the
+    harness enables) and panic.  For positive counts the final `debug_assert_eq!` on the number of
+    faces is mirrored. -/
 def build2 (split : Bool) (o : Rat × Rat) (n : Option (Nat × Nat)) (lpc lens : Option (Rat × Rat)) :
     Out Err (Map Val) :=
   match parse2 o n lpc lens with
   | .ok (o, (nx, ny), (lx, ly)) =>
-      if nx = 0 ∨ ny = 0 then .panic else
+      if nx = 0 ∨ ny = 0 then
+        if (if split then trisZeroGuard else squareZeroGuard) then
+          .ok (Map.empty 3 6 ((if split then trisK else squareK) * nx * ny + 1))
+        else .panic
+      else
       let m := if split then buildSplit2 o.1 o.2 nx ny lx ly else buildGrid2 o.1 o.2 nx ny lx ly
       if (iterFaces2 m).length ≠ (if split then 2 * nx * ny else nx * ny) then .panic else .ok m
   | .err e => .err e
